@@ -584,4 +584,53 @@ def toEv (idx : Nat) (x : Xml) : Option Model.Xml.Ev := do
   let s ← tagInt (find .staff x.kids)
   pure (.note idx (intOr d 0).toNat (find .chord x.kids).isSome (find .grace x.kids).isSome (intOr v 0).toNat (intOr s 0).toNat)
 
+/-! ### saving the loaded note again -/
+
+def reexportBody : BodyR → Body
+  | .pitched (some step) alter (some octave) grace => .pitched step alter octave grace
+  | .unpitched (some step) (some octave) nh filled => .unpitched step octave (nh.map fun t => (t, filled))
+  | _ => .rest false
+
+def reexportTuplet (m : TupletMark) : TupletStart :=
+  match m.info with
+  | some i => { number := m.number.toNat, actualNotes := some i.actualNotes, actualType := some i.actualType,
+                normalNotes := some i.normalNotes, normalType := some i.normalType }
+  | none => { number := m.number.toNat, actualNotes := none, actualType := none, normalNotes := none, normalType := none }
+
+/-- the exporter's view of the note the importer made of an element, when the loaded score is saved again: every
+    attribute as `_handle_note` set it; the tie flags, slurs and tuplets as the pairing theorems (`ties_paired`,
+    `ranges_paired`) give them back, with the numbers the deterministic counter hands out again; `nStaves` as before -/
+def reexport (r : NoteRead) (nStaves : Nat) : NoteAttrs where
+  id := r.id
+  body := reexportBody r.body
+  dur := r.duration.toNat
+  chord := r.chord
+  tiePrev := r.tieStop
+  tieNext := r.tieStart
+  voice := some r.voice
+  stem := r.stem
+  fermata := r.fermata
+  arts := r.arts.map .known
+  technical := r.fingering.map .fingering
+  symType := r.symType
+  dots := r.dots
+  actualNotes := r.actualNotes
+  normalNotes := r.normalNotes
+  staff := some r.staff
+  nStaves := nStaves
+  slurStops := (r.slurs.filter fun m => !m.1).map fun m => m.2.toNat
+  slurStarts := (r.slurs.filter fun m => m.1).map fun m => m.2.toNat
+  tupletStops := (r.tuplets.filter fun m => !m.isStart).map fun m => m.number.toNat
+  tupletStarts := (r.tuplets.filter fun m => m.isStart).map reexportTuplet
+
+/-- the representative of its MusicXML meaning that the importer picks: numbered voice, numbered staff where the part has
+    several, an id that is not the empty string, a rest that is not hidden, a tuplet ratio without 0, range numbers that
+    are not 0, tuplets that have their four values or from which the importer infers nothing -/
+def CanonicalNote (n : NoteAttrs) : Prop :=
+  n.id ≠ some [] ∧ n.body ≠ .rest true ∧ (∃ v, n.voice = some v ∧ v ≠ 0) ∧
+  (n.nStaves > 1 → ∃ s, n.staff = some s ∧ s ≠ 0) ∧ n.staff ≠ some 0 ∧
+  (∀ a b, n.actualNotes = some a → n.normalNotes = some b → a ≠ 0 ∧ b ≠ 0) ∧
+  (∀ k ∈ n.slurStops ++ n.slurStarts ++ n.tupletStops ++ n.tupletStarts.map (·.number), k ≠ 0) ∧
+  ∀ t ∈ n.tupletStarts, t.info = none → canonTupletInfo n t = none
+
 end Model.XmlNote
